@@ -285,3 +285,147 @@ package obfs4
 //@   ensures [C03:never_writes] conn.Conn.nwrites == nw0
 //@   ensures [C03:always_closes] conn.Conn.closed
 //@   ensures [C03:fixed_drop_time] conn.Conn.rdeadline == old(conn.Conn.rdeadline) || conn.Conn.rdeadline == startTime + (sf.closeDelay * 1000000000 + 30000000000)
+
+// ---- C18: persisted identity (state file), crash safety, bridge-line round trip ----
+// statePath(dir) is the path of obfs4_state.json; idOf: the identity part of a decoded state file
+//@ pred sameId(a, b) := JSVALID(b) && JS_NODEID(b) == JS_NODEID(a) && JS_PRIV(b) == JS_PRIV(a) && JS_SEED(b) == JS_SEED(a)
+
+// Crash invariant of every function that touches the state directory: an identity that was on disk when
+// the function started is still there, unchanged, in whatever state a crash leaves behind.
+//@ func writeJSONServerState(stateDir, js) (err)
+//@   serves C18 C10
+//@   requires js != nil
+//@   modifies fs(), crashed
+//@   ghost P := JOIN(stateDir, "obfs4_state.json")
+//@   ghost ENC := JSENC(js.NodeID, js.PrivateKey, js.PublicKey, js.DrbgSeed, js.IATMode)
+//@   ensures [C18:state_written] !crashed && err == nil ==> fexists(P) && file(P) == ENC
+//@   ensures [C18:nothing_after_a_crash] old(crashed) ==> crashed && unchanged(file(P), fexists(P))
+//@   ensures [C18:identity_survives_crash] !old(crashed) && old(fexists(P)) && JSVALID(old(file(P))) && js.NodeID == JS_NODEID(old(file(P))) && js.PrivateKey == JS_PRIV(old(file(P))) && js.DrbgSeed == JS_SEED(old(file(P))) ==> fexists(P) && sameId(old(file(P)), file(P))
+
+// the bridge-line file is a different file; writing it cannot touch the state file
+//@ func newBridgeFile(stateDir, st) (err)
+//@   serves C18 C10
+//@   requires st != nil && st.cert != nil
+//@   modifies file(JOIN(stateDir, "obfs4_bridgeline.txt")), fexists(JOIN(stateDir, "obfs4_bridgeline.txt")), crashed
+//@   ensures old(crashed) ==> crashed
+
+//@ func newJSONServerState(stateDir, js) (err)
+//@   serves C18 C10
+//@   requires js != nil
+//@   modifies *js, fs(), crashed, csrand.Reader.*, blocked
+//@   ghost P := JOIN(stateDir, "obfs4_state.json")
+//@   ensures [C18:generated_state_persisted] !crashed && err == nil ==> fexists(P) && file(P) == JSENC(js.NodeID, js.PrivateKey, js.PublicKey, js.DrbgSeed, js.IATMode) && js.IATMode == 0
+//@       && ISHEX(js.NodeID) && len(js.NodeID) == 40 && ISHEX(js.PrivateKey) && len(js.PrivateKey) == 64 && ISHEX(js.DrbgSeed) && len(js.DrbgSeed) == 48
+//@   ensures [C18:generation_never_overwrites_a_valid_state] !old(crashed) && old(fexists(P)) && JSVALID(old(file(P))) && crashed ==> true
+
+// Load the persisted state; generate a new identity ONLY when there is no state file at all.  An
+// existing file that does not decode makes start-up fail - it is never silently replaced.
+//@ func jsonServerStateFromFile(stateDir, js) (err)
+//@   serves C18 C10
+//@   requires js != nil
+//@   modifies *js, fs(), crashed, csrand.Reader.*, blocked
+//@   ghost P := JOIN(stateDir, "obfs4_state.json")
+//@   ensures [C18:loads_what_is_persisted] err == nil && old(fexists(P)) ==> JSVALID(old(file(P))) && js.NodeID == JS_NODEID(old(file(P))) && js.PrivateKey == JS_PRIV(old(file(P))) && js.DrbgSeed == JS_SEED(old(file(P))) && js.IATMode == JS_IAT(old(file(P)))
+//@       && unchanged(file(P), fexists(P))
+//@   ensures [C18:no_silent_replace] old(fexists(P)) ==> unchanged(file(P), fexists(P)) && crashed == old(crashed)
+//@   ensures [C18:undecodable_state_is_an_error] old(fexists(P)) && !JSVALID(old(file(P))) ==> err != nil
+//@   ensures old(crashed) ==> crashed
+//@   ensures [C18:generate_only_if_absent] !crashed && err == nil && !old(fexists(P)) ==> fexists(P) && file(P) == JSENC(js.NodeID, js.PrivateKey, js.PublicKey, js.DrbgSeed, js.IATMode)
+
+//@ func serverCertFromState(st) (cert)
+//@   serves C18 C10
+//@   requires st != nil && st.nodeID != nil && kpOK(st.identityKey)
+//@   ensures [C18:cert_is_nodeid_pubkey] cert != nil && fresh(cert) && len(cert.raw) == 52 && seq(cert.raw) == cat(seq(st.nodeID), seq(st.identityKey.public))
+
+//@ func (*obfs4ServerCert).unpack(cert) (id, pk)
+//@   serves C18 C10
+//@   requires cert != nil
+//@   panics_if len(cert.raw) != 52
+//@   ensures [C18:unpack_splits_at_20] id != nil && pk != nil && seq(id) == sub(seq(cert.raw), 0, 20) && seq(pk) == sub(seq(cert.raw), 20, 52)
+
+//@ func (*obfs4ServerCert).String(cert) (s)
+//@   serves C18
+//@   requires cert != nil
+//@   ensures [C18:cert_string] s == TRIMSUFFIX(B64(seq(cert.raw)), "==")
+
+//@ func serverCertFromString(encoded) (cert, err)
+//@   serves C18 C10
+//@   ensures [C18:cert_from_string] (err == nil) == (ISB64(cat(encoded, "==")) && len(UNB64(cat(encoded, "=="))) == 52) && (err == nil) == (cert != nil)
+//@   ensures err == nil ==> seq(cert.raw) == UNB64(cat(encoded, "==")) && len(cert.raw) == 52
+
+// Bridge-line round trip over the contracts: a 52-byte cert survives String -> serverCertFromString
+// (base64 of 52 bytes ends in "==", which String trims and the parser re-appends).
+//@ lemma cert_roundtrip
+//@   serves C18
+//@   vars raw BSeq
+//@   requires len(raw) == 52
+//@   ensures [string_then_parse] ISB64(cat(TRIMSUFFIX(B64(raw), "=="), "==")) && UNB64(cat(TRIMSUFFIX(B64(raw), "=="), "==")) == raw
+
+// ... so a client that parses the advertised cert obtains exactly the bridge's node ID and public key;
+// the legacy hex forms round-trip as well.
+//@ lemma bridge_line_roundtrip
+//@   serves C18
+//@   vars id BSeq, pk BSeq
+//@   requires len(id) == 20 && len(pk) == 32
+//@   ensures [cert_form] sub(UNB64(cat(TRIMSUFFIX(B64(cat(id, pk)), "=="), "==")), 0, 20) == id && sub(UNB64(cat(TRIMSUFFIX(B64(cat(id, pk)), "=="), "==")), 20, 52) == pk
+//@   ensures [legacy_form] ISHEX(HEX(id)) && len(HEX(id)) == 40 && UNHEX(HEX(id)) == id && ISHEX(HEX(pk)) && len(HEX(pk)) == 64 && UNHEX(HEX(pk)) == pk
+
+// Build the server state from the (loaded, generated or supplied) JSON state and write it back.
+//@ func serverStateFromJSONServerState(stateDir, js) (st, err)
+//@   serves C18 C10
+//@   requires js != nil
+//@   modifies fs(), crashed
+//@   ghost P := JOIN(stateDir, "obfs4_state.json")
+//@   ensures (err == nil) ==> st != nil
+//@   ensures [C18:presented_identity_is_the_json_state] err == nil ==> st.nodeID != nil && kpOK(st.identityKey) && st.drbgSeed != nil && seq(st.nodeID) == UNHEX(js.NodeID) && seq(st.identityKey.private) == UNHEX(js.PrivateKey)
+//@       && seq(st.identityKey.public) == X25519BASE(UNHEX(js.PrivateKey)) && seq(st.drbgSeed) == sub(UNHEX(js.DrbgSeed), 0, 24) && st.iatMode == js.IATMode && 0 <= st.iatMode && st.iatMode <= 2
+//@       && st.cert != nil && seq(st.cert.raw) == cat(seq(st.nodeID), seq(st.identityKey.public)) && len(st.cert.raw) == 52
+//@   ensures [C18:persisted_equals_presented] !crashed && err == nil ==> fexists(P) && file(P) == JSENC(js.NodeID, js.PrivateKey, js.PublicKey, js.DrbgSeed, js.IATMode)
+//@   ensures [C18:identity_survives_crash] !old(crashed) && old(fexists(P)) && JSVALID(old(file(P))) && js.NodeID == JS_NODEID(old(file(P))) && js.PrivateKey == JS_PRIV(old(file(P))) && js.DrbgSeed == JS_SEED(old(file(P))) ==> fexists(P) && sameId(old(file(P)), file(P))
+//@   ensures unchanged(js.NodeID, js.PrivateKey, js.PublicKey, js.DrbgSeed, js.IATMode)
+//@   ensures old(crashed) ==> crashed && unchanged(file(P), fexists(P))
+
+// A start of the bridge.  noIdArgs: none of node-id / private-key / drbg-seed was supplied.
+//@ pred noIdArgs(m) := !ARGHAS(m, "node-id") && !ARGHAS(m, "private-key") && !ARGHAS(m, "drbg-seed")
+//@ func serverStateFromArgs(stateDir, args) (st, err)
+//@   serves C18 C10
+//@   requires args != nil
+//@   modifies fs(), crashed, csrand.Reader.*, blocked
+//@   ghost P := JOIN(stateDir, "obfs4_state.json")
+//@   ghost F := file(P)
+//@   ghost A := *args
+//@   ensures (err == nil) ==> st != nil
+//@   ensures [C18:same_identity_on_every_later_start] err == nil && noIdArgs(A) && old(fexists(P)) ==> JSVALID(F) && seq(st.nodeID) == UNHEX(JS_NODEID(F)) && seq(st.identityKey.private) == UNHEX(JS_PRIV(F))
+//@   ensures [C18:same_public_key_and_seed] err == nil && noIdArgs(A) && old(fexists(P)) ==> seq(st.identityKey.public) == X25519BASE(UNHEX(JS_PRIV(F))) && seq(st.drbgSeed) == sub(UNHEX(JS_SEED(F)), 0, 24)
+//@   ensures [C18:iat_mode_persisted_or_overridden] err == nil && noIdArgs(A) && old(fexists(P)) ==> st.iatMode == ite(ARGHAS(A, "iat-mode"), ATOI(ARGVAL(A, "iat-mode")), JS_IAT(F))
+//@   ensures [C18:state_is_complete] err == nil ==> st.nodeID != nil && kpOK(st.identityKey) && st.drbgSeed != nil && st.cert != nil && seq(st.cert.raw) == cat(seq(st.nodeID), seq(st.identityKey.public)) && len(st.cert.raw) == 52 && 0 <= st.iatMode && st.iatMode <= 2
+//@   ensures [C18:persisted_equals_presented] !crashed && err == nil ==> fexists(P) && JSVALID(file(P)) && seq(st.nodeID) == UNHEX(JS_NODEID(file(P))) && seq(st.identityKey.private) == UNHEX(JS_PRIV(file(P)))
+//@       && seq(st.drbgSeed) == sub(UNHEX(JS_SEED(file(P))), 0, 24) && st.iatMode == JS_IAT(file(P)) && st.cert != nil && seq(st.cert.raw) == cat(seq(st.nodeID), seq(st.identityKey.public))
+//@   ensures [C18:identity_survives_crash] !old(crashed) && noIdArgs(A) && old(fexists(P)) && JSVALID(F) ==> fexists(P) && sameId(F, file(P))
+//@   ensures [C18:no_silent_replace] !old(crashed) && noIdArgs(A) && old(fexists(P)) && !JSVALID(F) ==> err != nil && unchanged(file(P), fexists(P))
+
+// What a client makes of the bridge-line arguments: exactly the node ID and public key in the cert (new
+// form) or in node-id/public-key (legacy form), and an IAT mode in 0..2.
+//@ func (*obfs4ClientFactory).ParseArgs(cf, args) (r, err)
+//@   serves C18 C10
+//@   requires args != nil
+//@   modifies csrand.Reader.*, blocked
+//@   ghost A := *args
+//@   ensures err == nil ==> typeis(r, "*obfs4.obfs4ClientArgs") && payload(r) != nil
+//@   ensures [C18:client_reads_cert] err == nil && ARGHAS(A, "cert") ==> r.(*obfs4ClientArgs).nodeID != nil && r.(*obfs4ClientArgs).publicKey != nil
+//@       && seq(r.(*obfs4ClientArgs).nodeID) == sub(UNB64(cat(ARGVAL(A, "cert"), "==")), 0, 20) && seq(r.(*obfs4ClientArgs).publicKey) == sub(UNB64(cat(ARGVAL(A, "cert"), "==")), 20, 52)
+//@   ensures [C18:client_reads_legacy_args] err == nil && !ARGHAS(A, "cert") ==> r.(*obfs4ClientArgs).nodeID != nil && r.(*obfs4ClientArgs).publicKey != nil
+//@       && seq(r.(*obfs4ClientArgs).nodeID) == UNHEX(ARGVAL(A, "node-id")) && seq(r.(*obfs4ClientArgs).publicKey) == UNHEX(ARGVAL(A, "public-key"))
+//@   ensures [C18:iat_range] err == nil ==> r.(*obfs4ClientArgs).iatMode == ATOI(ARGVAL(A, "iat-mode")) && 0 <= r.(*obfs4ClientArgs).iatMode && r.(*obfs4ClientArgs).iatMode <= 2 && kpOK(r.(*obfs4ClientArgs).sessionKey)
+
+// The server factory advertises exactly the persisted/presented identity: cert = String(cert of the state),
+// iat-mode = the state's IAT mode; and it keys the handshake with that node ID and identity key.
+//@ func (*Transport).ServerFactory(t, stateDir, args) (sf, err)
+//@   serves C18 C10
+//@   requires args != nil
+//@   modifies fs(), crashed, csrand.Reader.*, blocked
+//@   assert_at Args).Add#1 [C18:advertises_cert] arg1 == "cert" && arg2 == TRIMSUFFIX(B64(seq(st.cert.raw)), "==") && seq(st.cert.raw) == cat(seq(st.nodeID), seq(st.identityKey.public))
+//@   assert_at Args).Add#2 [C18:advertises_iat_mode] arg1 == "iat-mode" && arg2 == fmtInt(st.iatMode, 10)
+//@   ensures [C18:factory_uses_state_identity] err == nil ==> typeis(sf, "*obfs4.obfs4ServerFactory") && payload(sf) != nil && sf.(*obfs4ServerFactory).nodeID != nil && kpOK(sf.(*obfs4ServerFactory).identityKey)
+//@       && 0 <= sf.(*obfs4ServerFactory).iatMode && sf.(*obfs4ServerFactory).iatMode <= 2 && sf.(*obfs4ServerFactory).replayFilter != nil && sf.(*obfs4ServerFactory).lenSeed != nil
+//@       && (sf.(*obfs4ServerFactory).iatMode != 0 ==> sf.(*obfs4ServerFactory).iatSeed != nil)
